@@ -177,6 +177,11 @@ def gen_world(rng, opts=None):
     names = rng.sample(LAB_NAMES, n)
     if opts.get("allow_same_names") and n >= 2 and rng.random() < 0.06:
         names[1] = names[0]  # two distinct labware objects that happen to carry the same name
+    if opts.get("unicode_names") and rng.random() < 0.05:
+        # labware names outside Latin-1 (the file format's encoding): the records exist in memory, save() must
+        # refuse loudly rather than write a file that addresses other racks
+        for j, nm in enumerate(rng.sample(["ΔadhE", "plate α", "plate β", "→out"], min(n, rng.choice([1, 1, 2])))):
+            names[j] = nm
     labs = []
     for i in range(n):
         kind = "trough" if rng.random() < opts.get("p_trough", 0.4) else "plate"
